@@ -112,12 +112,26 @@ fn rec_free(sz: usize) {
         }
     });
 }
+/// A single request above this, made by code under accounting, is refused (null): with overcommit a terabyte
+/// "succeeds" and zeroing it takes the machine down. Rust then aborts with "memory allocation of N bytes failed",
+/// which the driver reports as a violation of the memory bound (nothing in the harness asks for that much).
+pub const HARD_REQUEST_CAP: usize = 1 << 30;
+#[inline]
+fn refused(sz: usize) -> bool {
+    sz > HARD_REQUEST_CAP && A_ON.try_with(Cell::get).unwrap_or(false)
+}
 unsafe impl GlobalAlloc for CountingAlloc {
     unsafe fn alloc(&self, l: Layout) -> *mut u8 {
+        if refused(l.size()) {
+            return std::ptr::null_mut();
+        }
         rec_alloc(l.size());
         System.alloc(l)
     }
     unsafe fn alloc_zeroed(&self, l: Layout) -> *mut u8 {
+        if refused(l.size()) {
+            return std::ptr::null_mut();
+        }
         rec_alloc(l.size());
         System.alloc_zeroed(l)
     }
@@ -126,6 +140,9 @@ unsafe impl GlobalAlloc for CountingAlloc {
         System.dealloc(p, l)
     }
     unsafe fn realloc(&self, p: *mut u8, l: Layout, new: usize) -> *mut u8 {
+        if refused(new) {
+            return std::ptr::null_mut();
+        }
         rec_free(l.size());
         rec_alloc(new);
         System.realloc(p, l, new)
